@@ -85,12 +85,21 @@ def _mdf_base(key: str, nsec: int, extra: int) -> bytes:
     return bytes(out)
 
 
-def materialise(sc: dict):
-    """Returns (top view, logical bytes, SimFile, W, mark) or raises ScenarioInvalid."""
-    from smpl_extract.util.stream import StreamOffset, StreamWrapper, StreamReversed
-    from smpl_extract.util.sector import SectorStream
-    from smpl_extract.util.fat import FileStream
-    from smpl_extract.alcohol.mdf import MdfStream
+class _NoView:
+    """Stand-in used when only the reference content is wanted (scenario generation never runs tool code)."""
+    def __init__(self, *a, **k):
+        pass
+
+
+def materialise(sc: dict, model_only: bool = False):
+    """Returns (top view, logical bytes, SimFile, W) or raises ScenarioInvalid."""
+    if model_only:
+        StreamOffset = StreamWrapper = StreamReversed = SectorStream = FileStream = MdfStream = _NoView
+    else:
+        from smpl_extract.util.stream import StreamOffset, StreamWrapper, StreamReversed
+        from smpl_extract.util.sector import SectorStream
+        from smpl_extract.util.fat import FileStream
+        from smpl_extract.alcohol.mdf import MdfStream
 
     layers = sc["layers"]
     if not layers:
@@ -249,7 +258,7 @@ def gen(rng: random.Random, tier: str, index: int) -> dict:
         base_n, layers = _gen_layers(rng)
         sc = {"base_n": base_n, "base_key": "b%d" % rng.getrandbits(32), "layers": layers, "ops": []}
         try:
-            _v, logical, _sf, W = materialise(sc)
+            _v, logical, _sf, W = materialise(sc, model_only=True)
         except ScenarioInvalid:
             continue
         break
